@@ -133,7 +133,7 @@ class Grammar:
                 if f.attr in ("setParseAction", "set_parse_action", "addParseAction") and e.args:
                     inner.kw.setdefault("actions", []).append(e.args[0])
                 if f.attr in ("setName", "set_name") and e.args:
-                    inner.kw["name"] = self._s(e.args[0])
+                    inner.kw["label"] = self._s(e.args[0])
                 if f.attr == "suppress":
                     inner.kw["suppressed"] = True
                 return inner
